@@ -17,7 +17,13 @@
 (* the driver while the request is parked): nothing that needs the lock may    *)
 (* happen in between.  (ld.prepared has no closing point, the unlock after it  *)
 (* is not observable, so outside a hold it does not occupy the lock here.)     *)
-(* The state is one record s = [st, ph, lock, held, seen]; every point is an   *)
+(* Faults: a request whose data source fails (ld.loaded with b = 1; the        *)
+(* errored-fetch bookkeeping before that point is a [db] section) is merged as *)
+(* an error and belongs to `bad`; a request that reads from a bad request is   *)
+(* not issued at all (ld.prepare, then ld.skipped [db], ph = 8) and is bad     *)
+(* itself - so the transitive dependants of a failed request never run, and    *)
+(* nothing else may be skipped.                                                *)
+(* The state is one record s = [st, ph, lock, held, seen, bad]; a point is an  *)
 (* function with a guard so that the generator (which composes points into     *)
 (* schedule steps) and the trace specification (one event = one point) use     *)
 (* literally the same definitions.  Execution order between requests comes     *)
@@ -28,7 +34,8 @@ LeafIds(t) == Range(LeafIdSeq(t))
 S0(t) == [st   |-> Settle(t, [p \in Paths(t) |-> "idle"]),
           ph   |-> [f \in LeafIds(t) |-> 0],
           lock |-> 0, held |-> 0,
-          seen |-> [f \in LeafIds(t) |-> {}]]
+          seen |-> [f \in LeafIds(t) |-> {}],
+          bad  |-> {}]
 
 Active(t, s, f) == s.st[PathOf(t, f)] = "active"
 
@@ -46,8 +53,14 @@ LoadEff(s, f) == [s EXCEPT !.ph[f] = 3]
 \* 4 / 5
 CanDs(s, f) == s.ph[f] = 3
 DsEff(s, f) == [s EXCEPT !.ph[f] = 4]
-CanLoaded(s, f) == s.ph[f] = 4
-LoadedEff(s, f) == [s EXCEPT !.ph[f] = 5]
+\* err: the data source failed; recording that (recordErroredFetchID) takes the data lock before ld.loaded fires
+CanLoaded(s, f, err) == s.ph[f] = 4 /\ (err => s.lock = 0 /\ s.held = 0)
+LoadedEff(s, f, err) == [s EXCEPT !.ph[f] = 5, !.bad = IF err THEN @ \cup {f} ELSE @]
+\* ld.skipped [db]: not issued because a request it reads from failed or was skipped itself; nothing else is ever skipped
+CanSkipped(D, s, f) == s.ph[f] = 1 /\ s.lock = 0 /\ s.held = 0 /\ D[f] \cap s.bad # {}
+SkippedEff(t, s, f) ==
+  [s EXCEPT !.ph[f] = 8, !.bad = @ \cup {f},
+            !.st = Settle(t, [s.st EXCEPT ![PathOf(t, f)] = "done"])]
 \* 6
 CanMerging(s, f) == s.ph[f] = 5 /\ s.lock = 0 /\ s.held = 0
 MergingEff(s, f) == [s EXCEPT !.ph[f] = 6, !.lock = f]
@@ -65,7 +78,8 @@ UnholdEff(s, f) == [s EXCEPT !.held = 0]
 
 \* ---- properties (state predicates over t, D, s) ---------------------------------------------
 \* the C08 invariant: prepared => every request it reads from has been merged
-DepsRespected(t, D, s) == \A f \in LeafIds(t) : s.ph[f] >= 2 => \A d \in D[f] \cap LeafIds(t) : s.ph[d] = 7
-SawAllDeps(t, D, s)    == \A f \in LeafIds(t) : s.ph[f] >= 2 => s.seen[f] = D[f] \cap LeafIds(t)
-Finished(t, s)         == \A f \in LeafIds(t) : s.ph[f] = 7
+\* (merged = completed AND merged successfully: a failed or skipped request never counts)
+DepsRespected(t, D, s) == \A f \in LeafIds(t) : s.ph[f] \in 2..7 => \A d \in D[f] \cap LeafIds(t) : s.ph[d] = 7 /\ d \notin s.bad
+SawAllDeps(t, D, s)    == \A f \in LeafIds(t) : s.ph[f] \in 2..7 => s.seen[f] = D[f] \cap LeafIds(t)
+Finished(t, s)         == \A f \in LeafIds(t) : s.ph[f] \in {7, 8}
 =============================================================================
